@@ -18,8 +18,8 @@ RULE = (
     "global_ctx in {absent, '*', and context names of a script, a module, a package sibling, an app}; then a second "
     "round: one more edit and a default reload from the state reached. Oracle (ref/reloadmodel.py, written from the "
     "docs): the set of load events (context, source generation) emitted during the reload, the set of loaded contexts "
-    "afterwards, and for every context the model says is untouched the same context object with its counter variable "
-    "intact. distinct = distinct (graph, edits, reload kind, outcome); non-trivial = at least one context was discarded"
+    "afterwards, every loaded script / app answering an event through its trigger (loaded means running), and for every "
+    "context the model says is untouched the same context object with its counter variable intact. distinct = distinct (graph, edits, reload kind, outcome); non-trivial = at least one context was discarded"
 )
 ASSUMPTIONS = [
     "reload is driven through the pyscript.reload service (the seam the file watcher calls); the watcher thread's debounce is outside the closed system",
@@ -61,6 +61,9 @@ def edges_of(g):
 
 def src(ctx, gen, edges):
     lines = [f"GEN = {gen}", "counter = 0", "event.fire('loaded', ctx=pyscript.get_global_ctx(), gen=GEN)"]
+    if ctx in RM.AUTOLOAD:
+        # a loaded script or app is also RUNNING: its trigger answers
+        lines += ["@event_trigger('ping')", "def pong(**kw):", "    event.fire('pong', ctx=pyscript.get_global_ctx(), gen=GEN)"]
     for imp in edges.get(ctx, []):
         if imp.startswith("modules.") and imp.count(".") == 1:
             lines.append(f"import {imp.split('.')[1]}")
@@ -160,6 +163,14 @@ def run_case(graph, edits1, reload1, edit2, legacy=False):
                         "discarded_by_model": sorted(discard)}, outcome
             if set(after) != set(m.loaded):
                 return {"kind": "loaded-contexts", "round": rnd, "expected": sorted(m.loaded), "observed": sorted(after)}, outcome
+            pongs = []
+            unsub = w.hass.bus.async_listen("pong", lambda ev: pongs.append((ev.data["ctx"], ev.data["gen"])))
+            w.fire("ping", {})
+            w.settle()
+            unsub()
+            want_pongs = sorted((c, st["gen"]) for c, st in m.loaded.items() if c in RM.AUTOLOAD)
+            if sorted(pongs) != want_pongs:
+                return {"kind": "loaded-but-not-running", "round": rnd, "expected": want_pongs, "observed": sorted(pongs)}, outcome
             for ctx in pre_loaded - discard:
                 if after.get(ctx) is not before.get(ctx) or after[ctx].global_sym_table.get("counter") != 7 + rnd:
                     return {"kind": "untouched-context-replaced", "round": rnd, "ctx": ctx, "expected": "same object, counter kept",
